@@ -107,6 +107,41 @@ Definition parse_copy_loop (toks:list string) : option (string * string * string
   do l <- expect "}" l; do l <- expect ")" l; do l <- expect "}" l;
   match l with [] => Some (src, dst, ty, fs) | _ => None end.
 
+(** the same copy written with an index:  for I := range SRC { DST[I] = T{F: SRC[I].G, ...} }  (DST made with len(SRC)).
+    F : SRC [ I ] .G [,] ... up to (not including) the closing brace *)
+Fixpoint parse_index_fields (src i:string) (l:list string) {struct l} : option (list (string * string) * list string) :=
+  match l with
+  | [] => None
+  | f :: r0 =>
+    if String.eqb f "}" then Some ([], l) else
+    match r0 with
+    | colon :: s :: lb :: i' :: rb :: dg :: r =>
+      if negb (is_name f && String.eqb colon ":" && String.eqb s src && String.eqb lb "[" && String.eqb i' i && String.eqb rb "]") then None else
+      match strip_prefix "." dg with
+      | None => None
+      | Some g =>
+        if negb (is_name g) then None else
+        match r with
+        | c :: r' =>
+          if String.eqb c "," then
+            match parse_index_fields src i r' with Some (fs, l') => Some ((f, g) :: fs, l') | None => None end
+          else if String.eqb c "}" then Some ([(f, g)], r) else None
+        | [] => None
+        end
+      end
+    | _ => None
+    end
+  end.
+
+Definition parse_index_loop (toks:list string) : option (string * string * string * list (string * string)) :=
+  do l <- expect "for" toks; do (i, l) <- name l; do l <- expect ":" l; do l <- expect "=" l; do l <- expect "range" l;
+  do (src, l) <- name l; do l <- expect "{" l;
+  do (dst, l) <- name l; do l <- expect "[" l; do l <- expect i l; do l <- expect "]" l; do l <- expect "=" l;
+  do (ty, l) <- name l; do l <- expect "{" l;
+  do (fs, l) <- parse_index_fields src i l;
+  do l <- expect "}" l; do l <- expect "}" l;
+  match l with [] => Some (src, dst, ty, fs) | _ => None end.
+
 (** ** meaning of a field assignment from bpf.RawInstruction{Op,Jt,Jf,K} to syscall.SockFilter{Code,Jt,Jf,K} *)
 Fixpoint assoc_s (l:list (string * string)) (k:string) : option string :=
   match l with
@@ -146,6 +181,15 @@ Definition sockfilter_fields (f:skfun) : option (list (string * string)) :=
   | [param], false, [SAssign true (EId d) (EConv mk [_; ENum 0; _]); SUnknown src; SReturn [EId d']] =>
     if String.eqb mk "make" && String.eqb d d' then
       match parse_copy_loop (tokens src) with
+      | Some (s, dst, ty, fs) =>
+        if String.eqb s param && String.eqb dst d && String.eqb ty "syscall.SockFilter" then Some fs else None
+      | None => None
+      end
+    else None
+  | [param], false, [SAssign true (EId d) (EConv mk [_; EConv ln [EId param']]); SUnknown src; SReturn [EId d']] =>
+    (* filled in place: one element per element of the parameter *)
+    if String.eqb mk "make" && String.eqb ln "len" && String.eqb param' param && String.eqb d d' then
+      match parse_index_loop (tokens src) with
       | Some (s, dst, ty, fs) =>
         if String.eqb s param && String.eqb dst d && String.eqb ty "syscall.SockFilter" then Some fs else None
       | None => None
